@@ -49,8 +49,9 @@ Proof. intros s e F. unfold forward. rewrite F. reflexivity. Qed.
 
 Section WithQuery.
   Variable query : name -> nat -> list nat * list nat.
+  Variable blocked : name -> bool.
 
-  Lemma tree_inv_run14 : forall evs s, tree_inv s -> tree_inv (run14 query s evs).
+  Lemma tree_inv_run14 : forall evs s, tree_inv s -> tree_inv (run14 query blocked s evs).
   Proof.
     induction evs as [|e evs IH]; intros s H; simpl in *; [exact H|].
     apply IH. destruct e; cbn [step14 fst]; try (eapply tree_inv_eq; [|exact H]; unfold tree_eq; cbn; tauto).
@@ -58,7 +59,7 @@ Section WithQuery.
   Qed.
 
   Lemma fanout_run : forall evs e k u t q,
-    let s := run14 query init evs in
+    let s := run14 query blocked init evs in
     forwarded s e = Some (k, u, t, q) ->
     (forall c, In c (children s) -> conn_of c (forward s e) = [CSearch k u t q]) /\
     (forall c, ~ In c (children s) -> conn_of c (forward s e) = []) /\
@@ -69,9 +70,9 @@ Section WithQuery.
 
   (* own searches: every carrier is filtered, for forwarding and for answering (generated flags) *)
   Lemma own_all : forall s k t q, session s = true ->
-    (forward s (ServerSearch k me t q) = [] /\ answer query s (ServerSearch k me t q) = []) /\
-    (forall c, forward s (DistSearch c k me t q) = [] /\ answer query s (DistSearch c k me t q) = []) /\
-    (forall c code, forward s (LegacySearch c code k me t q) = [] /\ answer query s (LegacySearch c code k me t q) = []).
+    (forward s (ServerSearch k me t q) = [] /\ answer query blocked s (ServerSearch k me t q) = []) /\
+    (forall c, forward s (DistSearch c k me t q) = [] /\ answer query blocked s (DistSearch c k me t q) = []) /\
+    (forall c code, forward s (LegacySearch c code k me t q) = [] /\ answer query blocked s (LegacySearch c code k me t q) = []).
   Proof.
     intros s k t q Hs. unfold forward, forwarded, answer, own. rewrite Hs. cbn.
     split; [split; reflexivity|]. split.
@@ -82,16 +83,30 @@ Section WithQuery.
   Definition expected_answer (u : name) (t : Z) (q : nat) : list reply :=
     let r := query u q in if is_nil (fst r) && is_nil (snd r) then [] else [mkReply u t me (fst r) (snd r)].
 
-  Lemma answer_exact : forall s u t q k, session s = true -> Nat.eqb u me = false ->
-    answer query s (ServerSearch k u t q) = expected_answer u t q /\
-    (forall c, live c s = true -> answer query s (DistSearch c k u t q) = expected_answer u t q) /\
-    (forall c code, live c s = true -> legacy_code_ok code = true -> answer query s (LegacySearch c code k u t q) = expected_answer u t q) /\
+  Lemma answer_exact : forall s u t q k, session s = true -> Nat.eqb u me = false -> blocked u = false ->
+    answer query blocked s (ServerSearch k u t q) = expected_answer u t q /\
+    (forall c, live c s = true -> answer query blocked s (DistSearch c k u t q) = expected_answer u t q) /\
+    (forall c code, live c s = true -> legacy_code_ok code = true -> answer query blocked s (LegacySearch c code k u t q) = expected_answer u t q) /\
     (forall c code, legacy_code_ok code = false ->
-       answer query s (LegacySearch c code k u t q) = [] /\ forward s (LegacySearch c code k u t q) = []).
+       answer query blocked s (LegacySearch c code k u t q) = [] /\ forward s (LegacySearch c code k u t q) = []).
   Proof.
-    intros s u t q k Hs Hu. unfold answer, own, reply_for, expected_answer, forward, forwarded. rewrite Hs, Hu. cbn [andb].
-    rewrite !andb_false_r. split; [reflexivity|]. split; [intros c L; rewrite L; reflexivity|].
+    intros s u t q k Hs Hu Hb. unfold answer, own, reply_for, expected_answer, forward, forwarded. rewrite Hs, Hu, Hb. cbn [andb negb].
+    rewrite ?andb_false_r. cbn [negb andb]. split; [reflexivity|]. split; [intros c L; rewrite L; reflexivity|].
     split; [intros c code L C; rewrite L, C; reflexivity|]. intros c code C. rewrite C, andb_false_r. split; reflexivity.
+  Qed.
+
+  (* a user blocked for searches gets no answer, whatever the carrier; forwarding does not look at the block list
+     (see [others_forwarded]: it has no hypothesis about [blocked]) *)
+  Lemma blocked_not_answered : forall s u t q k, blocked u = true ->
+    answer query blocked s (ServerSearch k u t q) = [] /\
+    (forall c, answer query blocked s (DistSearch c k u t q) = []) /\
+    (forall c code, answer query blocked s (LegacySearch c code k u t q) = []).
+  Proof.
+    intros s u t q k Hb. unfold answer, reply_for. rewrite Hb. cbn [answer_blocked_gate andb negb]. rewrite andb_false_r.
+    split; [|split].
+    - destruct (session s); [destruct (_ && _)|]; reflexivity.
+    - intros c. destruct (live c s); [destruct (_ && _)|]; reflexivity.
+    - intros c code. destruct (live c s && legacy_code_ok code); [destruct (_ && _)|]; reflexivity.
   Qed.
 
   (* requests of other users are passed on by every carrier (the filter does not over-block) *)
